@@ -38,6 +38,24 @@ func versVersionTemplates(scheme, tier string) []string {
 	return t
 }
 
+// versQualTemplate: a version with a two-letter qualifier whose letters may be upper or lower case
+// (bounds that differ only in letter case are different versions in the case-sensitive schemes).
+func versQualTemplate(scheme string) string {
+	switch scheme {
+	case "generic", "cargo", "npm", "nuget":
+		return "{d}.{d}.{d}-{a}{a}"
+	case "golang":
+		return "v{d}.{d}.{d}-{a}{a}"
+	case "deb", "rpm":
+		return "{d}.{d}~{a}{a}"
+	case "maven":
+		return "{d}.{d}-{a}{a}"
+	case "gem":
+		return "{d}.{d}.{a}{a}"
+	}
+	return ""
+}
+
 var versOps = []string{"=", "!=", "<", "<=", ">", ">="}
 
 func isLowerOp(op string) bool { return op == ">" || op == ">=" }
@@ -158,6 +176,20 @@ func init() {
 						}
 					}
 				}
+				// bounds and probe with a qualifier in either letter case (k <= 2)
+				if q := versQualTemplate(scheme); q != "" {
+					for k := 1; k <= 2; k++ {
+						for _, pat := range versPatterns(k) {
+							vs := make([]string, k)
+							for i := range vs {
+								vs[i] = q
+							}
+							v := pad3(vs)
+							out = append(out, &Config{ID: fmt.Sprintf("C04/%s/%s/qual/%s", scheme, strings.Join(pat, " "), q), Pkg: zzhPkg, Func: "C04Vers",
+								Args: []ArgSpec{ArgStr(eco), ArgStr(scheme), ArgStr(strings.Join(pat, " ")), ArgTmpl(v[0]), ArgTmpl(v[1]), ArgTmpl(v[2]), ArgTmpl(v[3]), ArgTmpl(q)}})
+						}
+					}
+				}
 				// k = 5..8: lists of '=' points, lists of '!=' exclusions, and three / four lower-upper pairs;
 				// bounds staggered by a concrete leading component, the probe symbolic
 				{
@@ -261,7 +293,7 @@ func init() {
 			return out
 		},
 		Bounds: func(tier string) string {
-			return "11 schemes; every VERS-valid comparator sequence with k <= 3 constraints, and for k = 4 the two-pair sequences (lower upper lower upper, all 16 inclusiveness combinations; thorough adds one pair with an = point and a != exclusion in every position); for k = 5..8 four (quick) / eight (thorough) sequences: lists of '=' points, lists of '!=' exclusions, three and four lower/upper pairs, mixed; versions and probes from 2 (quick) / 3 (thorough) small numeric templates per scheme; pypi: final/post releases, plus k <= 2 ranges with pre-release bounds and pre-/dev-release probes against the PEP 440 default"
+			return "11 schemes; every VERS-valid comparator sequence with k <= 3 constraints, and for k = 4 the two-pair sequences (lower upper lower upper, all 16 inclusiveness combinations; thorough adds one pair with an = point and a != exclusion in every position); for k = 5..8 four (quick) / eight (thorough) sequences: lists of '=' points, lists of '!=' exclusions, three and four lower/upper pairs, mixed; versions and probes from 2 (quick) / 3 (thorough) small numeric templates per scheme; pypi: final/post releases, plus k <= 2 ranges with pre-release bounds and pre-/dev-release probes against the PEP 440 default; k <= 2 with a two-letter qualifier in either letter case on every bound and on the probe"
 		},
 		Assume: []string{"scheme -> ecosystem routing table is spec-side (DESIGN B.5)", "the interval denotation versSem in harness/pkg/zzh/vers.go is the spec-side reading of the VERS specification"},
 	})
@@ -374,6 +406,26 @@ func init() {
 						}
 					}
 				}
+				// two constraints whose versions carry a qualifier in either letter case (they may differ in
+				// case only), alone and with a third bound: every permutation and duplicate
+				if q := versQualTemplate(scheme); q != "" {
+					for _, pat := range [][]string{{">=", ">="}, {"<", "<="}, {"=", "="}, {"!=", "!="}, {"=", "!="}, {">=", ">=", "<"}, {"!=", "!=", ">="}} {
+						k := len(pat)
+						vs := []string{q, q, vt}[:k]
+						v := pad3(vs)
+						var trs []string
+						for _, pm := range perms(k) {
+							if !isIdentity(pm) {
+								trs = append(trs, "perm:"+joinInts(pm))
+							}
+						}
+						trs = append(trs, "dup:0", "dup:1")
+						for _, tr := range trs {
+							out = append(out, &Config{ID: fmt.Sprintf("C16/%s/qual/%s/%s", scheme, strings.Join(pat, " "), tr), Pkg: zzhPkg, Func: "C16Inv",
+								Args: []ArgSpec{ArgStr(eco), ArgStr(scheme), ArgStr(strings.Join(pat, " ")), ArgTmpl(v[0]), ArgTmpl(v[1]), ArgTmpl(v[2]), ArgTmpl(v[3]), ArgTmpl(q), ArgStr(tr), ArgStr("")}})
+						}
+					}
+				}
 				// k = 4 with an exclusion or a point between two bounds of one direction and a bound of the other
 				// (the grouping then depends on the sorted order of the same-direction bounds): every permutation
 				mixed4 := [][]string{{">=", ">", "!=", "<"}, {">=", "!=", "<", "<="}}
@@ -423,7 +475,7 @@ func init() {
 			return out
 		},
 		Bounds: func(tier string) string {
-			return "11 schemes; comparator patterns, alternating and not, with k <= 3 (quick: at most 24 patterns for k=2, 12 for k=3, and k <= 2 for gem and maven), plus, for k = 4, the two-pair patterns (quick: 4 of 16) under 6 permutations, 2 duplicates, 2 empty constraints and 2 spaces, and 2 (5) patterns with an exclusion between same-direction bounds under all 23 permutations; all permutations, one duplicate at every position, one empty constraint at every position, one space at every (for k=3: every second, quick: every third) byte position of every constraint (tab, CR and LF are non-printable and belong to C17)"
+			return "11 schemes; comparator patterns, alternating and not, with k <= 3 (quick: at most 24 patterns for k=2, 12 for k=3, and k <= 2 for gem and maven), plus, for k = 4, the two-pair patterns (quick: 4 of 16) under 6 permutations, 2 duplicates, 2 empty constraints and 2 spaces, and 2 (5) patterns with an exclusion between same-direction bounds under all 23 permutations; all permutations, one duplicate at every position, one empty constraint at every position, one space at every (for k=3: every second, quick: every third) byte position of every constraint (tab, CR and LF are non-printable and belong to C17); 7 patterns whose first two versions carry a two-letter qualifier in either letter case, under every permutation and duplicate"
 		},
 	})
 
